@@ -12,7 +12,13 @@ func Select(list List, limit int, selector func(Doc) (bool, bool)) List {
 	// prepare result
 	var result List
 	if limit > 0 {
-		result = make(List, 0, limit)
+		// never preallocate more than the list can yield (the limit may be
+		// huge, e.g. a small limit added to a very large skip)
+		size := limit
+		if size > len(list) {
+			size = len(list)
+		}
+		result = make(List, 0, size)
 	}
 
 	// select documents
